@@ -18,6 +18,7 @@ import (
 	"sort"
 	"strings"
 	"sync"
+	"sync/atomic"
 	"testing"
 	"time"
 
@@ -114,6 +115,12 @@ func deadlockSignature() (string, string) {
 
 func runC13(c C13Case, info *kit.Info) *kit.Finding {
 	racing := false
+	var transient atomic.Int64
+	defer func() {
+		if transient.Load() > 0 {
+			info.Class("listen-retried-after-transient-EADDRINUSE")
+		}
+	}()
 	for rep := 0; rep < c.Reps; rep++ {
 		mgr := service.NewListenerManager()
 		saddr, paddr := make([]string, c.Addrs), make([]string, c.Addrs)
@@ -143,6 +150,17 @@ func runC13(c C13Case, info *kit.Info) *kit.Finding {
 			} else {
 				addr = paddr[a]
 				h, err = mgr.ListenPacket(addr)
+			}
+			for attempt := 0; err != nil && strings.Contains(err.Error(), "address already in use") && attempt < 20; attempt++ {
+				// Another process probing for a free port holds a port for an instant (and a concurrent listen of this
+				// case may succeed right after): only a refusal that persists is the manager's doing.
+				time.Sleep(time.Duration(1+attempt) * time.Millisecond)
+				if kind == "ls" {
+					h, err = mgr.ListenStream(addr)
+				} else {
+					h, err = mgr.ListenPacket(addr)
+				}
+				transient.Add(1)
 			}
 			if err != nil {
 				if strings.Contains(err.Error(), "address already in use") && !kit.PortOwnedBySelf(kind == "lp", addr) {
